@@ -57,7 +57,8 @@ MANIFEST = {
             'on a fresh instance and on one that compiled other tasks before '
             '(command, files and instance attributes must agree), and the real '
             'ResourceManager.find_launcher is checked against the configured '
-            'order.',
+            'order.'
+            '  Second session: JSRUN_ERF placements with uneven resource-set sizes; find_launcher is called on a resource manager which has chosen launchers for 0-4 earlier tasks.',
     'note': 'commands are interpreted, never executed (no MPI/Slurm binaries '
             'in the sandbox); launchers which name no nodes (APRUN, CCMRUN, '
             'JSRUN without ERF) are checked for counts only; IBRUN only for '
